@@ -53,3 +53,29 @@ class Predict(Contract):
                     all(L.rle(R.distances[int(ci)], R.distances[f]) for f in range(n) if R.assignments[f] == R.assignments[int(ci)])
                     for ci in R.center_indices)),
                 ('one-center-per-label-present', len(R.center_indices) == len(set(int(a) for a in R.assignments)))]
+
+
+class ClusterEntry(Contract):
+    """Run-time contract for a clustering entry point as a whole (kmedoids(), hybrid(), estimator .fit): C01 state
+    predicate on the result, centres are frames, K fixed where given, inputs unchanged, cost vs. a reference state."""
+    def __init__(self, key, ref_cost=None, k_expected=None, data_arg='X', metric_arg='distance_method', modifies=()):
+        self.key, self.ref_cost, self.k_expected, self.data_arg, self.metric_arg = key, ref_cost, k_expected, data_arg, metric_arg
+        self.modifies = tuple(modifies)
+
+    def ensures(self, L, A, N, R, G, V):
+        import numpy as np
+        from contracts.cluster import metric, consistent
+        from contracts.kmedoids import msq
+        X = np.asarray(A[self.data_arg])
+        res = R if hasattr(R, 'assignments') else R.result_
+        dist = metric(L, X, fn=A[self.metric_arg] if self.metric_arg in A else A['self'].metric)
+        D, asg, ctr, cen = res.distances, res.assignments, res.center_indices, res.centers
+        n, k = len(X), len(ctr)
+        out = [('lengths', len(D) == n and len(asg) == n and len(cen) == k)]
+        out += [('consistent:' + nm, g) for nm, g in consistent(L, n, dist, D, asg, ctr, k)]
+        out.append(('center-is-the-frame-at-its-index', all(np.array_equal(np.asarray(cen[c]), X[int(ctr[c])]) for c in range(k))))
+        if self.k_expected is not None:
+            out.append(('number-of-clusters', k == self.k_expected))
+        if self.ref_cost is not None:
+            out.append(('cost-never-worse-than-start', L.rle(msq(L, D), self.ref_cost)))
+        return out
